@@ -608,4 +608,99 @@ example :
     c.done.map (·.2) = [.accept 0 "w" 10 false, .event 0 raceEv .newer] := by
   decide
 
+/-! ### acceptance racing the event loop: every finished schedule is a linearisation -/
+
+/-- **finished_is_linearization**: with the coordinator mutex, once every thread has run its
+    program to the end, the completion order is an interleaving of the thread programs
+    (program order kept, `merges`), and executing that order sequentially gives exactly the
+    shared state and the answers / dispositions of the concurrent run — for any number of
+    threads, any programs, any schedule. -/
+theorem finished_is_linearization (cfg : Cfg) (s0 : St) (progs : List (List Job)) (sched : List Nat) :
+    let c := crun cfg true (Conc.start s0 progs) sched
+    (∀ th ∈ c.threads, th.jobs = []) →
+    ∃ ord ∈ merges (totalJobs progs) progs,
+      ord.map (·.2) = c.done.reverse.map (·.1) ∧ seqJobs cfg s0 (ord.map (·.2)) = (c.st, c.done) := by
+  intro c hfin
+  have hm : MInv progs c.threads c.done := minv_run cfg true sched (by simpa [Conc.start] using minv_start progs)
+  obtain ⟨tord, ht, hi⟩ := hm.ord
+  have hnil : Interleave (c.threads.map (·.jobs)) [] := by
+    refine Interleave.nil ?_
+    rw [List.all_eq_true]
+    intro l hl
+    obtain ⟨th, hth, rfl⟩ := List.mem_map.mp hl
+    simp [hfin th hth]
+  have hint : Interleave progs tord := by simpa using hi [] hnil
+  refine ⟨tord, hint.mem_merges _ (by rw [hint.length]; exact Nat.le_refl _), ht, ?_⟩
+  rw [ht]
+  exact atomic_refines cfg s0 progs sched
+
+/-- **finished_observation_allowed**: what can be observed of a finished episode under the
+    mutex — the per-thread `Accept` answers and any probes of the final state — passes the race
+    clause `linOk` of the Spec: it is the observation of the sequential order `ord`, whose final
+    state is the concurrent run's and whose answers are the ones recorded in the run's log. -/
+theorem finished_observation_allowed (cfg : Cfg) (utype : String → UpkeepType) (s0 : St) (progs : List (List Job))
+    (sched : List Nat) (w uid : String) (pr : Probes) :
+    let c := crun cfg true (Conc.start s0 progs) sched
+    (∀ th ∈ c.threads, th.jobs = []) →
+    ∃ ord : List (Nat × Job),
+      (runTagged cfg s0 ord).1 = c.st ∧
+      (runTagged cfg s0 ord).2.map (·.2) = c.done.reverse.filterMap answerOf ∧
+      linOk cfg utype s0 progs w uid pr (observe cfg utype progs.length w uid pr (runTagged cfg s0 ord)) = true := by
+  intro c hfin
+  obtain ⟨ord, hmem, _, hseq⟩ := finished_is_linearization cfg s0 progs sched hfin
+  refine ⟨ord, ?_, ?_, ?_⟩
+  · rw [runTagged_state, hseq]
+  · rw [runTagged_answers, hseq]
+  · simp only [linOk, linOutcomes, List.contains_eq_mem, List.mem_map, decide_eq_true_eq]
+    exact ⟨ord, hmem, rfl⟩
+
+/-- every sequential order's observation is allowed (the Spec never asks for a particular order) -/
+theorem linOk_of_order (cfg : Cfg) (utype : String → UpkeepType) (s0 : St) (progs : List (List Job)) (w uid : String)
+    (pr : Probes) (ord : List (Nat × Job)) (h : ord ∈ merges (totalJobs progs) progs) :
+    linOk cfg utype s0 progs w uid pr (observe cfg utype progs.length w uid pr (runTagged cfg s0 ord)) = true := by
+  simp only [linOk, linOutcomes, List.contains_eq_mem, List.mem_map, decide_eq_true_eq]
+  exact ⟨ord, h, rfl⟩
+
+private def linCfg : Cfg := ⟨1, 100000⟩
+private def linEv12 : Event := ⟨"w", "aa", performEvent, 21, 12, 5⟩
+private def linS0 : St := (run linCfg [.accept "w" 10]).st
+private def linProbes : Probes := ⟨[10, 11, 12], [20, 21], [11, 12, 13]⟩
+private def linU : String → UpkeepType := fun _ => .condition
+
+/-- **lost_update_not_linearizable**: the node awaits block 10; one answer of the provider holds
+    the confirmed perform of the NEWER report `(w, 12)`; `Accept(w, 11)` is called meanwhile.
+    If `Accept` takes its decision from a record read before the event body runs and writes
+    after it (schedule `A.get, E.get, E.set, A.set` of the unmutexed step machine — also what
+    "read without the mutex, lock only around the write" produces), then `Accept(w, 11)` answers
+    true, `(w, 11)` is offered for transmission, the work counts as in flight again and
+    `(w, 12)` would be accepted anew: an observation the race clause rejects.  Both sequential
+    orders end in `{12, performed}`, and with the mutex the same schedule does too. -/
+theorem lost_update_not_linearizable :
+    let progs : List (List Job) := [[.event linEv12], [.accept "w" 11]]
+    let c := crun linCfg false (Conc.start linS0 progs) [1, 0, 0, 1]
+    let o := observe linCfg linU 2 "w" "u" linProbes (c.st, [(1, true)])
+    c.done.map (·.2) = [.accept 0 "w" 11 true, .event 0 linEv12 .newer] ∧
+    o = ⟨[[], [true]], [false, true, false], [false, false], [false, true, true]⟩ ∧
+    linOk linCfg linU linS0 progs "w" "u" linProbes o = false ∧
+    linOutcomes linCfg linU linS0 progs "w" "u" linProbes =
+      [⟨[[], [false]], [false, false, false], [false, true], [false, false, true]⟩,
+       ⟨[[], [true]], [false, false, false], [false, true], [false, false, true]⟩] ∧
+    (let m := crun linCfg true (Conc.start linS0 progs) [1, 0, 0, 1, 1, 0, 0]
+     (∀ th ∈ m.threads, th.jobs = []) ∧
+     linOk linCfg linU linS0 progs "w" "u" linProbes (observe linCfg linU 2 "w" "u" linProbes (m.st, [(1, true)])) = true) := by
+  decide
+
+/-- the race clause is not a fixed expectation: when the operations do not commute, each
+    order's outcome is allowed (no record yet: the event counts only if the acceptance came
+    first), and an answer no order gives is rejected (the same report accepted twice at once) -/
+example :
+    let ev : Event := ⟨"w", "aa", performEvent, 21, 11, 5⟩
+    let pr : Probes := ⟨[11], [21], [11, 12]⟩
+    linOutcomes linCfg linU (St.init 0) [[.event ev], [.accept "w" 11]] "w" "u" pr =
+      [⟨[[], [true]], [true], [false], [false, true]⟩, ⟨[[], [true]], [false], [true], [false, true]⟩] ∧
+    linOk linCfg linU linS0 [[.accept "w" 11], [.accept "w" 11]] "w" "u" pr ⟨[[true], [false]], [true], [false], [false, true]⟩ = true ∧
+    linOk linCfg linU linS0 [[.accept "w" 11], [.accept "w" 11]] "w" "u" pr ⟨[[false], [true]], [true], [false], [false, true]⟩ = true ∧
+    linOk linCfg linU linS0 [[.accept "w" 11], [.accept "w" 11]] "w" "u" pr ⟨[[true], [true]], [true], [false], [false, true]⟩ = false := by
+  decide
+
 end AutoVerif.C06
